@@ -39,7 +39,8 @@ BOUNDS = {
     "quick": {"signatures": "<= 3 parameters over all five kinds and default patterns inspect accepts",
               "plain": "0..4 positionals x keyword presence for every parameter name + one foreign name",
               "literals": "0..1 positionals, *tuple-literal of length 0 / 2 or absent, per name: absent / keyword / key of the **dict-literal, one duplicated name",
-              "unknown": "0..3 positionals, keyword presence, *args: tuple[int, ...] and/or **kwargs: dict[str, int]; expansions enumerated up to length 4 / all subsets of names"},
+              "unknown": "0..3 positionals, keyword presence, *args: tuple[int, ...] and/or **kwargs: dict[str, int]; expansions enumerated up to length 4 / all subsets of names",
+              "typeddict": "0..2 positionals, **td with every name absent / required / NotRequired; expansions = subsets of the NotRequired keys"},
     "thorough": {"signatures": "<= 4 parameters", "plain": "0..5 positionals", "literals": "same", "unknown": "same"},
 }
 OUTSIDE = ["extraction of the signature from runtime objects (arg_spec)", "ParamSpec and the ELLIPSIS parameter kind",
@@ -204,6 +205,39 @@ def h05_unknown(npos: int, k0: bool, k1: bool, k2: bool, k3: bool, k4: bool, ua:
     return fin(not some_nonempty)
 
 
+def h05_td(npos: int, m0: int, m1: int, m2: int, m3: int, m4: int) -> bool:
+    """
+    post: _
+    """
+    # f(*positionals, **td) where td is a TypedDict: each candidate name is absent from it, a required key
+    # or a NotRequired key.  Expansions = every choice of which NotRequired keys are present.
+    from pyanalyze.value import TypedDictEntry, TypedDictValue
+
+    n = _sel(npos, 3)
+    modes = [_sel(m, 3) for m in (m0, m1, m2, m3, m4)[: len(_NAMES)]]  # 0 absent, 1 required, 2 not required
+    req = [nm for nm, m in zip(_NAMES, modes) if m == 1]
+    opt = [nm for nm, m in zip(_NAMES, modes) if m == 2]
+    td = TypedDictValue({**{k: TypedDictEntry(TypedValue(int), required=True) for k in req},
+                         **{k: TypedDictEntry(TypedValue(int), required=False) for k in opt}})
+    args = [(Composite(KnownValue(i)), None) for i in range(n)]
+    args.append((Composite(td), KWARGS))
+    py = _py_accepts(args)
+    some = False
+    every = True
+    for r in range(0, len(opt) + 1):
+        for comb in itertools.combinations(opt, r):
+            if _binds(n, req + list(comb)):
+                some = True
+            else:
+                every = False
+    feat_optional_to_required = False
+    if excluded(feat=feat_optional_to_required, accepted=py, some=some, every=every):
+        return skip()
+    if py:
+        return fin(some)  # accepted only if some expansion binds
+    return fin(not every)  # rejected only if some expansion fails to bind
+
+
 # --------------------------------------------------------------------------------------
 
 
@@ -319,6 +353,8 @@ def cases(tier: str, seed: int) -> List[Case]:
         out.append(Case("h05_plain", f"plain:{lab}", data, timeout=60 if quick else 180, twin=tw))
         if (not quick) or nparams <= 2 or (idx + seed) % 8 == 0:
             out.append(Case("h05_lits", f"lits:{lab}", data, timeout=150 if quick else 600, twin=tw))
+        if (not quick) or nparams <= 2 or (idx + seed) % 4 == 1:
+            out.append(Case("h05_td", f"td:{lab}", data, timeout=150 if quick else 600, twin=tw))
         if (not quick) or nparams <= 2 or (idx + seed) % 4 == 2:
             out.append(Case("h05_unknown", f"unk:{lab}", data, timeout=150 if quick else 600, twin=tw))
     return out
